@@ -1,6 +1,8 @@
-(* decode (encode v ++ rest) = v and size v = |encode v| for every value of the fragment `adm` of any schema:
-   aliases, enums and structs (without parent, or concrete with an abstract parent - with or without @size window) whose members are of the
-   kinds classified in StructProofs.v, nested to any depth.  The induction is on the nesting depth; the fuel of the interpreter follows. *)
+(* decode (encode v ++ rest) = v and size v = |encode v| for every value of the fragment `admf` of any schema:
+   aliases, enums and concrete structs (without parent; or with an abstract parent - with or without @size window) whose members are of the
+   kinds classified in StructProofs.v, nested to any depth; struct values are admissible at their own class and, through the factory
+   (decf_S, factory_ok, decf_via_dec), at the abstract parent of their class.
+   The induction (RT_all) is on the nesting depth; the fuel of the interpreter follows.  RT_dec / RT_decf are the two public shapes. *)
 From Symv Require Import Base.Bytes Base.PyOps Base.BytesLemmas Cats.Layout Cats.LayoutInst Cats.LayoutProofs Cats.ArrayProofs Cats.LayoutLaws
   Cats.LayoutInstProofs Cats.StructProofs.
 From Coq Require Import Lia ZifyBool.
@@ -23,7 +25,7 @@ Record flat_struct (s : struct) : Prop := {
   fs_concrete : s_disp s <> SdAbstract;
   fs_names : NoDup (map f_name (struct_fields_nc s));
   fs_no_size_member : forall f, In f (struct_fields_nc s) -> f_name f <> "size";
-  fs_ordered : ordered tm (struct_fields_nc s) [] [] (struct_fields_nc s);
+  fs_ordered : lordered tm (struct_fields_nc s) [] [] (struct_fields_nc s);
   fs_fixed : exists f, In f (struct_fields_nc s) /\ pos_member tm (struct_fields_nc s) f;
   fs_closed : forall f, In f (struct_fields_nc s) -> ~ fill_member tm (struct_fields_nc s) f
 }.
@@ -46,8 +48,8 @@ Record based_struct (s a : struct) (f0 : field) (i : intty) (hrest : list field)
   bs_f0_cond : f_cond f0 = None;
   bs_f0_plain : is_reserved f0 = false;
   bs_f0_settable : is_settable (struct_fields_nc s) f0 = true;
-  bs_ordered_h : ordered tm (struct_fields_nc s) [] ["size"] hrest;
-  bs_ordered_o : ordered tm (struct_fields_nc s) hrest [] (own_fields tm s);
+  bs_ordered_h : lordered tm (struct_fields_nc s) [] ["size"] hrest;
+  bs_ordered_o : lordered tm (struct_fields_nc s) hrest [] (own_fields tm s);
   bs_closed_h : forall f, In f hrest -> ~ fill_member tm (struct_fields_nc s) f
 }.
 
@@ -63,8 +65,8 @@ Record based_nosize_struct (s a : struct) (hfs : list field) : Prop := {
   bn_attr_a : struct_size_attr a = None;
   bn_attr_s : struct_size_attr s = None;
   bn_no_size_member : forall f, In f (struct_fields_nc s) -> f_name f <> "size";
-  bn_ordered_h : ordered tm (struct_fields_nc s) [] [] hfs;
-  bn_ordered_o : ordered tm (struct_fields_nc s) hfs [] (own_fields tm s);
+  bn_ordered_h : lordered tm (struct_fields_nc s) [] [] hfs;
+  bn_ordered_o : lordered tm (struct_fields_nc s) hfs [] (own_fields tm s);
   bn_fixed : exists f, In f (struct_fields_nc s) /\ pos_member tm (struct_fields_nc s) f;
   bn_closed : forall f, In f (struct_fields_nc s) -> ~ fill_member tm (struct_fields_nc s) f
 }.
@@ -368,8 +370,21 @@ Proof.
   rewrite Hact, Hpick. symmetry. now apply dec_struct_type.
 Qed.
 
-Lemma nodup_app_l {A} (l1 l2 : list A) : NoDup (l1 ++ l2) -> NoDup l1.
-Proof. induction l1 as [|x l1 IH]; intros H; [constructor|]. cbn in H. inversion H as [|? ? Hn Hd]; subst. constructor; [|now apply IH]. intros Hx. apply Hn. apply in_or_app. now left. Qed.
+(* the codecs of integer aliases, as the union lemmas of StructProofs.v need them *)
+Lemma alias_enc_Rk k t nm i cm z : lookup tm t = Some (DAlias nm (LInt i) cm) ->
+  enc_t (Rk (S k)) t (VInt z) = py_to_bytes (Z.to_nat (it_size i)) (negb (it_unsigned i)) z.
+Proof. intros H. cbn [Rk enc_t enc]. now rewrite H. Qed.
+
+Lemma alias_dec_Rk k t nm i cm z b rest : lookup tm t = Some (DAlias nm (LInt i) cm) -> it_unsigned i = true -> 0 < it_size i ->
+  py_to_bytes (Z.to_nat (it_size i)) false z = Ok b ->
+  dec_t (Rk (S k)) t (b ++ rest) = Ok (VInt z) /\ size_t (Rk (S k)) t (VInt z) = Ok (it_size i).
+Proof.
+  intros H Hu Hpos Hpy. cbn [Rk dec_t size_t dec size]. rewrite H, Hu. cbn [negb]. split; [|reflexivity].
+  destruct (py_int_roundtrip _ _ _ _ rest Hpy) as [Hx Hlen]. rewrite Hx.
+  assert (Hr : int_in_range (Z.to_nat (it_size i)) false z = true) by (unfold py_to_bytes in Hpy; destruct (int_in_range _ _ _); [reflexivity|discriminate]).
+  unfold OP. cbn [base_value_bad ops_now]. replace (it_size i) with (Z.of_nat (Z.to_nat (it_size i))) at 1 by lia.
+  rewrite base_value_bad_spec by lia. now rewrite Hr.
+Qed.
 
 (* what the decoder collected is the value's member list *)
 Lemma collect_ok R s cls vs (adm_t : string -> value -> Prop) e (covered : list field) :
@@ -398,7 +413,17 @@ Hypothesis Hsub : forall t' v' b' rest', admf n t' v' -> enc_t (Rk k') t' v' = O
   dec_any tm (Rk k') t' (b' ++ rest') = Ok v' /\ size_t (Rk k') t' v' = Ok (Z.of_nat (length b')) /\ (0 < length b')%nat.
 Hypothesis Hpos : forall t' v' sz, admf n t' v' -> size_t (Rk k') t' v' = Ok sz -> 0 < sz.
 
-Notation loop_rt' := (fun sx allfs => loop_rt OP tm (Rk k') sx allfs size_bad_now order_same_now get_bytes_bad_now size_bad_v_now rv_is_last_now rv_overrun_now align_now (admf n) Hsub Hpos).
+Hypothesis Hk1 : exists k'', k' = S k''.
+
+Lemma alias_enc' : forall t nm i cm z, lookup tm t = Some (DAlias nm (LInt i) cm) ->
+  enc_t (Rk k') t (VInt z) = py_to_bytes (Z.to_nat (it_size i)) (negb (it_unsigned i)) z.
+Proof. destruct Hk1 as [k'' ->]. intros. eapply alias_enc_Rk; eassumption. Qed.
+Lemma alias_dec' : forall t nm i cm z b rest, lookup tm t = Some (DAlias nm (LInt i) cm) -> it_unsigned i = true -> 0 < it_size i ->
+  py_to_bytes (Z.to_nat (it_size i)) false z = Ok b ->
+  dec_t (Rk k') t (b ++ rest) = Ok (VInt z) /\ size_t (Rk k') t (VInt z) = Ok (it_size i).
+Proof. destruct Hk1 as [k'' ->]. intros. eapply alias_dec_Rk; eassumption. Qed.
+
+Notation loop_rt' := (fun sx allfs => fields_rt OP tm (Rk k') sx allfs size_bad_now order_same_now get_bytes_bad_now size_bad_v_now rv_is_last_now rv_overrun_now align_now (admf n) Hsub Hpos alias_enc' alias_dec').
 Notation size_ok' := (fun sx allfs => size_fields_ok OP tm (Rk k') sx allfs align_now (admf n) Hsub Hpos).
 Notation size_nonneg' := (fun allfs => size_fields_nonneg OP tm (Rk k') allfs align_now (admf n) Hpos).
 
@@ -615,7 +640,8 @@ Proof.
     + apply RT_leaf; [lia | exact I | eapply admf_leaf_any; [exact I | exact Hadm]].
     + cbn [admf] in Hadm. destruct (lookup_struct tm cls) as [s|] eqn:Hls; [|contradiction].
       destruct Hadm as (Hname & Hok & Hvs & Hty & Hstat).
-      destruct k as [|[|k']]; try lia.
+      destruct k as [|[|[|k'']]]; try lia. set (k' := S k'') in *.
+      assert (Hk1 : exists k0, k' = S k0) by (now exists k'').
       assert (Hsub : forall t' v' b' rest', admf n t' v' -> enc_t (Rk k') t' v' = Ok b' ->
                  dec_any tm (Rk k') t' (b' ++ rest') = Ok v' /\ size_t (Rk k') t' v' = Ok (Z.of_nat (length b')) /\ (0 < length b')%nat).
       { intros t' v' b' rest' Ha He. cbn [Rk enc_t size_t] in *. exact (proj1 (IH k' ltac:(lia) t' v' Ha) b' rest' He). }
@@ -629,12 +655,12 @@ Proof.
       { intros b rest Henc. destruct Hok as [Hflat|[(a & f0 & i & hrest & Hbased)|(a & hfs & Hbn)]].
         * assert (Hty' : forall f, In f (struct_fields_nc s) -> member_typed tm (struct_fields_nc s) (admf n) (VStruct cls vs) f).
           { intros f Hf. apply Hty. unfold typed_members. now rewrite (base_none s (fs_no_base s Hflat)). }
-          destruct (struct_rt_flat n k' Hsub Hpos cls vs s b rest Hls Hname Hflat Hvs Hty' Henc) as [Hd Hs]. split; [|exact Hs].
+          destruct (struct_rt_flat n k' Hsub Hpos Hk1 cls vs s b rest Hls Hname Hflat Hvs Hty' Henc) as [Hd Hs]. split; [|exact Hs].
           destruct Hstat as [->|(a & Hfo & _)]; [unfold dec_any; rewrite Hnabs; exact Hd|].
           exfalso. pose proof (fs_no_base s Hflat) as H1. pose proof (fo_ft _ _ _ Hfo) as H2. congruence.
         * assert (Hty' : forall f, In f (hrest ++ own_fields tm s) -> member_typed tm (struct_fields_nc s) (admf n) (VStruct cls vs) f).
           { intros f Hf. apply Hty. unfold typed_members. rewrite (bs_base _ _ _ _ _ Hbased), (bs_attr_a _ _ _ _ _ Hbased), (bs_all _ _ _ _ _ Hbased). exact Hf. }
-          destruct (struct_rt_based n k' Hsub Hpos cls vs s a f0 i hrest b rest Hls Hname Hbased Hvs Hty' Henc) as (Hd & Hs & e1 & ws & we & Hh & Henv).
+          destruct (struct_rt_based n k' Hsub Hpos Hk1 cls vs s a f0 i hrest b rest Hls Hname Hbased Hvs Hty' Henc) as (Hd & Hs & e1 & ws & we & Hh & Henv).
           split; [|exact Hs].
           destruct Hstat as [->|(a' & Hfo & Hpick)]; [unfold dec_any; rewrite Hnabs; exact Hd|].
           assert (a' = a).
@@ -645,7 +671,7 @@ Proof.
           exfalso. apply Hns. exact (bs_f0_name _ _ _ _ _ Hbased).
         * assert (Hty' : forall f, In f (struct_fields_nc s) -> member_typed tm (struct_fields_nc s) (admf n) (VStruct cls vs) f).
           { intros f Hf. apply Hty. unfold typed_members. rewrite (bn_base _ _ _ Hbn), (bn_attr_a _ _ _ Hbn). exact Hf. }
-          destruct (struct_rt_nosize n k' Hsub Hpos cls vs s a hfs b rest Hls Hname Hbn Hvs Hty' Henc) as (Hd & Hs & e1 & ws & we & Hh & Henv).
+          destruct (struct_rt_nosize n k' Hsub Hpos Hk1 cls vs s a hfs b rest Hls Hname Hbn Hvs Hty' Henc) as (Hd & Hs & e1 & ws & we & Hh & Henv).
           split; [|exact Hs].
           destruct Hstat as [->|(a' & Hfo & Hpick)]; [unfold dec_any; rewrite Hnabs; exact Hd|].
           assert (a' = a).
